@@ -155,7 +155,17 @@ func singlelineDiff(expected, received string) (string, int, int) {
 		dmp.DiffMain(expected, received, false),
 	)
 	if len(diffs) == 1 && diffs[0].Type == diffEqual {
-		return "", -1, -1
+		if expected == received {
+			return "", -1, -1
+		}
+
+		// the rune based diff can't tell the two strings apart (e.g. they differ
+		// only in invalid utf-8 bytes), report the whole lines as changed
+		var s strings.Builder
+		colors.FprintDelete(&s, strings.TrimSuffix(expected, "\n")+"\n")
+		colors.FprintInsert(&s, strings.TrimSuffix(received, "\n")+"\n")
+
+		return s.String(), 1, 1
 	}
 
 	var inserted, deleted int
